@@ -17,6 +17,26 @@ func samVarGen(r *RNG, id string, maxIns int, window bool) *Case {
 	c := NewCase("SAMVAR", id)
 	sc := genSam(r, true, maxIns)
 	L := len(sc.ref)
+	// an insertion before reference base 1 (reported as ins:0:n): prefix one record that starts at POS 1
+	leading := false
+	if maxIns > 0 {
+		for i := range sc.recs {
+			rc := &sc.recs[i]
+			if rc.pos == 1 && rc.flag&(4|256|2048) == 0 && rc.seq != "*" && len(rc.cigar) > 0 && r.Chance(1, 2) {
+				j := 0
+				for j < len(rc.cigar) && rc.cigar[j] >= '0' && rc.cigar[j] <= '9' {
+					j++
+				}
+				if j < len(rc.cigar) && (rc.cigar[j] == 'M' || rc.cigar[j] == '=' || rc.cigar[j] == 'X' || rc.cigar[j] == 'D') {
+					rc.cigar = "2I" + rc.cigar
+					rc.seq = randSeq(r, 2, symACGT, false) + rc.seq
+					leading = true
+					sc.tags["insertion-before-base-1"] = true
+				}
+				break
+			}
+		}
+	}
 	// drop records that align no base: toPairAlign/variants treat them like any other, keep a few
 	sc.fill(c)
 	var genes []gene
@@ -54,6 +74,10 @@ func samVarGen(r *RNG, id string, maxIns int, window bool) *Case {
 		start, end = randWindow(r, L)
 		c.Tag("window")
 	}
+	if leading && r.Chance(1, 2) { // a window bounded on the right only keeps position 0
+		start, end = -1, r.Range(1, L)
+		c.Tag("window")
+	}
 	c.SetInt("start", start).SetInt("end", end).SetBool("agg", false).SetInt("thrn", 0).SetInt("thrd", 1)
 	c.SetInt("threads", r.PickInt([]int{1, 2, 4}))
 	c.Set("refmode", "msa").Set("refname", sc.rname).Set("names", "").Set("seqs", "")
@@ -61,7 +85,7 @@ func samVarGen(r *RNG, id string, maxIns int, window bool) *Case {
 		c.Tag("insertions")
 	}
 	c.NonTrv = true
-	maybeCLI(r, c, 6)
+	maybeCLI(r, c, 3)
 	return c
 }
 
